@@ -24,8 +24,11 @@
                                 lat_laws does not demand; it is not needed for correctness and is not proved.)
    (d) parlat_reindexed         after every finishing schedule each row either is literally the input row or
                                 has its number in new's key index AND in the other indices - membership only:
-       parlat_reindexed_once_refuted   the other indices are VEC-backed in parallel mode (CRelIndex / CRelNoIndex;
-                                the serial macro uses a HashSet per key) and two workers that both read
+       parlat_reindexed_once    the other indices are SET-backed in parallel mode since /repo d5edf35 (CLatIndex, like the
+                                serial macro's HashSet per key): for every schedule the other indices list a row
+                                number once (NoDup), so an aggregate over the relation sees each row once.
+       parlat_reindexed_once_before_fix_refuted   with the VEC-backed indices of the code before that repair
+                                (CRelIndex / CRelNoIndex; [setidx] = false) two workers that both read
                                 new_has_ind = false for an existing row both insert its number: closed witness
                                 (2 workers, row (7,0), contributions (7,1) and (7,2), schedule [dup_sched]):
                                 the row number is in new's other indices twice.
@@ -90,12 +93,13 @@ Variable jm : V -> V -> V * bool.
 Hypothesis Hlaws : lat_laws le jm.
 Variable mx : K -> nat.
 Variable kfirst : bool.
+Variable setidx : bool.
 Variables dl tt : K -> option nat.
 
 Notation pstate := (@pstate K V).
 Notation worker := (@worker K V).
 Notation lpc := (@lpc K V).
-Notation stepf := (step keqb jm mx kfirst dl tt).
+Notation stepf := (step keqb jm mx kfirst setidx dl tt).
 Notation klk := (klook keqb).
 
 Definition fz (k : K) : option nat := orelse (dl k) (tt k).
@@ -378,7 +382,7 @@ Proof.
     right. right. exists (mx k). cbn. auto.
 Qed.
 
-Lemma run_inv1 : forall sched s, inv1 s -> inv1 (run_sched keqb jm mx kfirst dl tt s sched).
+Lemma run_inv1 : forall sched s, inv1 s -> inv1 (run_sched keqb jm mx kfirst setidx dl tt s sched).
 Proof. induction sched as [|j sched IH]; intros s I; cbn; [exact I | apply IH, step_inv1, I]. Qed.
 
 Lemma uniq_NoDup : forall R, uniq R <-> NoDup (map fst R).
@@ -459,7 +463,7 @@ Proof.
   - eapply measure_mk; [exact Hw|]. unfold wweight. cbn. lia.
 Qed.
 
-Lemma can_finish : forall n s, measure s < n -> inv1 s -> exists sched, finished (run_sched keqb jm mx kfirst dl tt s sched) = true.
+Lemma can_finish : forall n s, measure s < n -> inv1 s -> exists sched, finished (run_sched keqb jm mx kfirst setidx dl tt s sched) = true.
 Proof.
   induction n as [|n IH]; intros s Hm I; [lia|].
   destruct (finished s) eqn:F; [exists []; exact F|].
@@ -894,6 +898,24 @@ Proof.
   apply keqb_spec in E. injection H as <-. right. auto.
 Qed.
 
+Lemma nmem_In : forall i l, nmem i l = true <-> In i l.
+Proof.
+  intros i l. unfold nmem. rewrite existsb_exists. split.
+  - intros [x [H1 H2]]. apply Nat.eqb_eq in H2. subst x. exact H1.
+  - intros H. exists i. split; [exact H | apply Nat.eqb_refl].
+Qed.
+Lemma oins_in : forall i ot i0, In i0 (oins setidx i ot) <-> i0 = i \/ In i0 ot.
+Proof.
+  intros i ot i0. unfold oins. destruct (setidx && nmem i ot) eqn:E.
+  - apply andb_true_iff in E. destruct E as [_ E]. apply nmem_In in E. split; [auto | intros [-> | H]; auto].
+  - cbn. split; intros [H | H]; auto.
+Qed.
+Lemma oins_old : forall i ot i0, In i0 ot -> In i0 (oins setidx i ot).
+Proof. intros. apply oins_in. auto. Qed.
+Lemma oins_new : forall i ot, In i (oins setidx i ot).
+Proof. intros. apply oins_in. auto. Qed.
+Local Hint Resolve oins_old oins_new : core.
+
 Lemma step_inv4 : forall s j, inv1 s -> inv2 s -> inv4 s -> inv4 (stepf s j).
 Proof.
   intros s j I1 I2 I. unfold step. destruct (nth_error (lws s) j) as [w|] eqn:Hw; [|exact I].
@@ -922,13 +944,10 @@ Proof.
     + intros k0 i0 [-> ->]. right. rewrite klk_cons, keqb_refl. reflexivity.
     + intros k0 i0 H. apply klk_cons_inv in H. destruct H as [H | [_ ->]]; auto.
     + congruence.
-    + intros i0 H. right. exact H.
-    + intros i0 ->. right. left. reflexivity.
-    + intros _. left. reflexivity.
+    + intros i0 <-. right. auto.
   - destruct kfirst eqn:Ekf; (eapply mk_inv4; [exact I | exact Hw | ..]; cbn [wpc pend_key pend_other wl4]; auto).
     + intros k0 i0 [H _]. congruence.
-    + intros i0 H. right. exact H.
-    + intros i0 [_ ->]. right. left. reflexivity.
+    + intros i0 [_ <-]. right. auto.
     + eapply klk_ins_stable; [apply (i_uniq _ I1) | apply (i_ks _ I1) | exact L].
     + intros k0 i0 [_ [-> ->]]. right. rewrite klk_cons, keqb_refl. reflexivity.
     + intros i0 [H _]. congruence.
@@ -968,7 +987,7 @@ Variable work : list (list (K * V)).
 Hypothesis OK : init_ok R0 nk0 ot0 ch0 work.
 
 Notation st0 := (par_init R0 nk0 ot0 ch0 work).
-Notation run := (run_sched keqb jm mx kfirst dl tt st0).
+Notation run := (run_sched keqb jm mx kfirst setidx dl tt st0).
 
 Lemma init_worker : forall j w, nth_error (lws st0) j = Some w -> wpc w = PIdle /\ nth_error work j = Some (todo w).
 Proof.
@@ -1020,7 +1039,7 @@ Proof.
   split; [apply step_inv1; exact I1|]. split; [eapply step_inv2; eauto|]. split; [eapply step_inv3; eauto | eapply step_inv4; eauto].
 Qed.
 
-Lemma run_allinv : forall sched s, allinv s -> allinv (run_sched keqb jm mx kfirst dl tt s sched).
+Lemma run_allinv : forall sched s, allinv s -> allinv (run_sched keqb jm mx kfirst setidx dl tt s sched).
 Proof. induction sched as [|j sched IH]; intros s I; cbn; [exact I | apply IH, step_allinv, I]. Qed.
 
 Lemma reach_inv : forall sched, allinv (run sched).
@@ -1088,6 +1107,40 @@ Proof.
   - destruct H2 as [H2 | [j [w [H4 H3]]]]; [exact H2|]. destruct (finished_wpend _ _ _ F H4) as [_ Hp]. rewrite Hp in H3. destruct H3.
 Qed.
 
+(* (d') with set-backed indices (the code since d5edf35) a row number is listed ONCE, whatever the schedule: two workers that both
+   read new_has_ind = false for an existing row insert its number twice, the second insertion changes nothing *)
+Lemma step_lother : forall s j, lother (stepf s j) = lother s \/ exists i, lother (stepf s j) = oins setidx i (lother s).
+Proof.
+  intros s j. unfold step. destruct (nth_error (lws s) j) as [w|]; [|left; reflexivity].
+  destruct (wpc w); cbn [goto mk lother].
+  - destruct (todo w) as [|[k v] rest]; left; reflexivity.
+  - destruct (orelse r (orelse (dl k) (tt k))); left; reflexivity.
+  - destruct (join_row jm (lrows s) i v); left; reflexivity.
+  - destruct kfirst; cbn [mk lother]; [left; reflexivity | right; eauto].
+  - destruct kfirst; cbn [mk lother]; [right; eauto | left; reflexivity].
+  - left; reflexivity.
+  - destruct (nmem (mx k) (lheld s)); left; reflexivity.
+  - destruct (klk k (lnkey s)); left; reflexivity.
+  - left; reflexivity.
+  - left; reflexivity.
+  - left; reflexivity.
+Qed.
+
+Lemma oins_NoDup : setidx = true -> forall i ot, NoDup ot -> NoDup (oins setidx i ot).
+Proof.
+  intros -> i ot H. unfold oins. cbn [andb]. destruct (nmem i ot) eqn:E; [exact H|].
+  constructor; [|exact H]. intros Hin. apply nmem_In in Hin. congruence.
+Qed.
+
+Theorem parlat_reindexed_once : setidx = true -> NoDup ot0 -> forall sched, NoDup (lother (run sched)).
+Proof.
+  intros Hs H0 sched. unfold run_sched.
+  assert (G : forall sched s, NoDup (lother s) -> NoDup (lother (fold_left stepf sched s))).
+  { induction sched0 as [|j sched0 IH]; intros s H; cbn [fold_left]; [exact H|]. apply IH.
+    destruct (step_lother s j) as [-> | [i ->]]; [exact H | apply oins_NoDup; assumption]. }
+  apply G. exact H0.
+Qed.
+
 (* (e) no deadlock *)
 Theorem parlat_progress : forall sched, finished (run sched) = false -> exists j, enabled mx (run sched) j = true.
 Proof. intros sched F. apply progress1; [apply (proj1 (reach_inv sched)) | exact F]. Qed.
@@ -1129,8 +1182,8 @@ Theorem parlat_distribution_schedule_independent :
   forall R0 nk0 ot0 ch0 work nk0' ot0' ch0' work' sched sched',
   init_ok R0 nk0 ot0 ch0 work -> init_ok R0 nk0' ot0' ch0' work' ->
   (forall kv, In kv (concat work) <-> In kv (concat work')) ->
-  let s1 := run_sched keqb jm mx kfirst dl tt (par_init R0 nk0 ot0 ch0 work) sched in
-  let s2 := run_sched keqb jm mx kfirst dl tt (par_init R0 nk0' ot0' ch0' work') sched' in
+  let s1 := run_sched keqb jm mx kfirst setidx dl tt (par_init R0 nk0 ot0 ch0 work) sched in
+  let s2 := run_sched keqb jm mx kfirst setidx dl tt (par_init R0 nk0' ot0' ch0' work') sched' in
   finished s1 = true -> finished s2 = true ->
   forall k, valof keqb (lrows s1) k = valof keqb (lrows s2) k.
 Proof.
@@ -1167,8 +1220,9 @@ Qed.
 Definition zdl (k : Z) : option nat := if Z.eqb k 7 then Some 0 else None.
 Definition znone (k : Z) : option nat := None.
 Definition zmx (k : Z) : nat := 0.       (* all keys share one mutex: the worst case for blocking *)
-Definition zrun (kfirst : bool) R0 work sched :=
-  run_sched Z.eqb zjm zmx kfirst zdl znone (par_init R0 [] [] false work) sched.
+Definition zrun_gen (kfirst setidx : bool) R0 work sched :=
+  run_sched Z.eqb zjm zmx kfirst setidx zdl znone (par_init R0 [] [] false work) sched.
+Definition zrun (kfirst : bool) := zrun_gen kfirst true.            (* the code as it is now: set-backed *)
 
 (* the hypotheses are satisfiable: row 0 = (7, 0) is indexed by delta *)
 Example ex_init_ok : forall work, init_ok Z.eqb Z.le zdl znone [(7, 0)%Z] [] [] false work.
@@ -1183,13 +1237,19 @@ Proof.
 Qed.
 
 (* two workers raise the existing row 0 of key 7 (0 -> 1 -> 2); both read new's key index before either inserts,
-   so both see new_has_ind = false, both joins report a change, and both insert row number 0 into new's
-   (vec-backed) other indices: the row is in them TWICE.  For both insertion orders. *)
+   so both see new_has_ind = false, both joins report a change, and both insert row number 0 into new's other indices.
+   BEFORE /repo d5edf35 those were vec-backed and the row was in them TWICE (for both insertion orders); an aggregate over
+   the relation then counted the row twice (known_findings: par_lattice_index_lists_row_per_raise).  Set-backed: once. *)
 Definition dup_sched : list nat := [0; 1; 0; 1; 0; 1; 0; 0; 0; 1; 1; 1].
 
-Theorem parlat_reindexed_once_refuted : forall kfirst,
-  let s := zrun kfirst [(7, 0)%Z] [[(7, 1)%Z]; [(7, 2)%Z]] dup_sched in
+Theorem parlat_reindexed_once_before_fix_refuted : forall kfirst,
+  let s := zrun_gen kfirst false [(7, 0)%Z] [[(7, 1)%Z]; [(7, 2)%Z]] dup_sched in
   finished s = true /\ lrows s = [(7, 2)%Z] /\ lother s = [0; 0] /\ lchg s = true.
+Proof. intros [|]; vm_compute; repeat split. Qed.
+
+Example ex_reindexed_once_same_schedule : forall kfirst,
+  let s := zrun kfirst [(7, 0)%Z] [[(7, 1)%Z]; [(7, 2)%Z]] dup_sched in
+  finished s = true /\ lrows s = [(7, 2)%Z] /\ lother s = [0] /\ lchg s = true.
 Proof. intros [|]; vm_compute; repeat split. Qed.
 
 (* the same contributions on one worker (or in the serial macro): the row number is inserted once *)
@@ -1213,7 +1273,9 @@ Print Assumptions parlat_keys_untouched.
 Print Assumptions parlat_distribution_schedule_independent.
 Print Assumptions parlat_changed.
 Print Assumptions parlat_reindexed.
-Print Assumptions parlat_reindexed_once_refuted.
+Print Assumptions parlat_reindexed_once.
+Print Assumptions parlat_reindexed_once_before_fix_refuted.
+Print Assumptions ex_reindexed_once_same_schedule.
 Print Assumptions parlat_progress.
 Print Assumptions parlat_blocked_holder_enabled.
 Print Assumptions enabled_step_decreases.
